@@ -87,8 +87,9 @@ class NoiseModelFromNoiseProperties(devices.NoiseModel):
                     split_measure_ops.append(op)
                     continue
                 m_key = protocols.measurement_key_obj(op)
-                multi_measurements[m_key] = op
                 for q in op.qubits:
+                    # A key may be used by several measurements: remember the original per qubit.
+                    multi_measurements[(m_key, q)] = op
                     split_measure_ops.append(ops.measure(q, key=m_key))
             split_measure_moments.append(circuits.Moment(split_measure_ops))
 
@@ -121,14 +122,15 @@ class NoiseModelFromNoiseProperties(devices.NoiseModel):
         final_moments = []
         for moment in noisy_circuit:
             combined_measure_ops = []
-            restore_keys = set()
+            restored_ops: list[cirq.Operation] = []
             for op in moment:
                 if not protocols.is_measurement(op):
                     combined_measure_ops.append(op)
                     continue
-                restore_keys.add(protocols.measurement_key_obj(op))
-            for key in restore_keys:
-                combined_measure_ops.append(multi_measurements[key])
+                original = multi_measurements[(protocols.measurement_key_obj(op), op.qubits[0])]
+                if original not in restored_ops:
+                    restored_ops.append(original)
+            combined_measure_ops.extend(restored_ops)
             final_moments.append(circuits.Moment(combined_measure_ops))
         return final_moments
 
